@@ -535,6 +535,18 @@ theorem not_enum_of_new (st : St) (stk : List Nat) (hinv : ListInv st stk) (n : 
     (h : ¬ (val st.store n).isSome = true) : n ∉ enumNames :=
   fun hn => h (enum_isSome st stk hinv n hn)
 
+/-- reading a counter (which creates it when missing) leaves the list counters and their table alone -/
+theorem ensure_other (s : Store) (c : Name) (hch : enumChainB (skel s) = true)
+    (hex : ∀ n ∈ enumNames, (val s n).isSome = true) :
+    (∀ x ∈ enumNames, val (ensure s c) x = val s x) ∧ enumChainB (skel (ensure s c)) = true := by
+  by_cases hc : c ∈ enumNames
+  · have : ensure s c = s := by
+      have := hex c hc
+      simp [ensure, this]
+    rw [this]; exact ⟨fun _ _ => rfl, hch⟩
+  · refine ⟨fun x hx => ?_, enumChainB_ensure s c hc hch⟩
+    exact val_ensure_of_ne s c x (fun h => hc (h ▸ hx))
+
 theorem listInv_step (st st' : St) (stk stk' : List Nat) (e : Ev) (hinv : ListInv st stk)
     (hsafe : listSafe e = true) (hstk : stackStep stk e = some stk') (h : step st e = .ok st') :
     ListInv st' stk' := by
@@ -686,6 +698,48 @@ theorem listInv_step (st st' : St) (stk stk' : List Nat) (e : Ev) (hinv : ListIn
     have := setc_other st.store c 0 hch hc
     obtain ⟨h1, h2, h3, _, h5, h6⟩ := hinv
     exact ⟨h1, h2, enumVals_congr _ _ _ this.1 h3, this.2, enumThesB_cons _ _ _ hc h5, h6⟩
+  | «show» fmt c =>
+    simp only [stackStep, Option.some.injEq] at hstk; subst hstk
+    simp only [step, showRep] at h
+    cases hr : represent (valD st.store c) fmt with
+    | error e => rw [hr] at h; cases h
+    | ok r =>
+      rw [hr] at h
+      simp only [Except.ok.injEq] at h; subst h
+      have := ensure_other st.store c hch (fun n hn => enum_isSome st stk hinv n hn)
+      exact listInv_of_frame st _ stk hinv rfl rfl rfl this.1 this.2
+  | showThe c =>
+    simp only [stackStep, Option.some.injEq] at hstk; subst hstk
+    simp only [step] at h
+    cases hr : evalThe (theFuel st.thes) st.thes st.store ("the" ++ c) with
+    | error e => rw [hr] at h; cases h
+    | ok r =>
+      rw [hr] at h
+      simp only [Except.ok.injEq] at h; subst h
+      exact listInv_of_frame st _ stk hinv rfl rfl rfl (fun _ _ => rfl) hch
+  | renewThe c body =>
+    simp only [stackStep, Option.some.injEq] at hstk; subst hstk
+    simp only [step, Except.ok.injEq] at h; subst h
+    have hc := not_mem_of_contains hsafe
+    obtain ⟨h1, h2, h3, h4, h5, h6⟩ := hinv
+    exact ⟨h1, h2, h3, h4, enumThesB_cons _ _ _ hc h5, h6⟩
+  | setcv n m =>
+    simp only [stackStep, Option.some.injEq] at hstk; subst hstk
+    simp only [step, Except.ok.injEq] at h; subst h
+    have e1 := ensure_other st.store m hch (fun n hn => enum_isSome st stk hinv n hn)
+    have e2 := setc_other (ensure st.store m) n (valD st.store m) e1.2 (not_mem_of_contains hsafe)
+    exact listInv_of_frame st _ stk hinv rfl rfl rfl (fun x hx => by rw [e2.1 x hx, e1.1 x hx]) e2.2
+  | addcv n m =>
+    simp only [stackStep, Option.some.injEq] at hstk; subst hstk
+    simp only [step, Except.ok.injEq] at h; subst h
+    have e1 := ensure_other st.store m hch (fun n hn => enum_isSome st stk hinv n hn)
+    have e2 := addc_other (ensure st.store m) n (valD st.store m) e1.2 (not_mem_of_contains hsafe)
+    exact listInv_of_frame st _ stk hinv rfl rfl rfl (fun x hx => by rw [e2.1 x hx, e1.1 x hx]) e2.2
+  | initc n v =>
+    simp only [stackStep, Option.some.injEq] at hstk; subst hstk
+    simp only [step, Except.ok.injEq] at h; subst h
+    have := setc_other st.store n (v - 1) hch (not_mem_of_contains hsafe)
+    exact listInv_of_frame st _ stk hinv rfl rfl rfl this.1 this.2
 
 /-! ## what an item prints -/
 
@@ -842,5 +896,11 @@ theorem itemTrace_run : ∀ (evs : List Ev) (st st' : St) (stk : List Nat) (outs
       | eqRow => cases stk <;> simp [itemTrace] at ht
       | nonumber => cases stk <;> simp [itemTrace] at ht
       | appendix _ => cases stk <;> simp [itemTrace] at ht
+      | «show» _ _ => cases stk <;> simp [itemTrace] at ht
+      | showThe _ => cases stk <;> simp [itemTrace] at ht
+      | renewThe _ _ => cases stk <;> simp [itemTrace] at ht
+      | setcv _ _ => cases stk <;> simp [itemTrace] at ht
+      | addcv _ _ => cases stk <;> simp [itemTrace] at ht
+      | initc _ _ => cases stk <;> simp [itemTrace] at ht
 
 end PlasVerif.Proofs.EnumLists
